@@ -14,6 +14,8 @@ import corr
 import svc
 
 TOL = 1e-4
+# strategies with foresight of the connector: several vehicles on a tight connector must all be served (feasible by construction)
+SHARED_STRATS = ("flex_window", "peak_load_window", "balanced_market")
 
 
 def reach(js, res, p, limit_aware):
@@ -89,6 +91,8 @@ def check_case(case):
         st["periods"] += 1
         r = reach(js, res, p, lim)
         feasible = r >= p["desired"] - 1e-9
+        if case.get("shared"):
+            r, feasible = p["desired"], True          # served one after the other every vehicle finishes before its departure (svc.finish)
         cs = comp["charging_stations"][p["cs"]]
         minp = max(cs.get("min_power", 0), vt.get("min_charging_power", 0))
         sliver = minp * (res["interval"].total_seconds() / 3600) * 0.95 / vt["capacity"]
@@ -102,7 +106,8 @@ def check_case(case):
             taper = len({pw for _, pw in vt["charging_curve"]}) > 1
             a_, d_ = svc.step_of(res, p["arr_time"]), svc.step_of(res, p["dep_time"])
             binding = lim is not None and min(lim[a_:d_] + [cs["max_power"]]) < cs["max_power"] - 1e-9
-            cls = ("min-power-sliver" if (minp > 0 and short <= sliver + TOL) else
+            cls = ("desired-missed/shared-connector" if case.get("shared") else
+                   "min-power-sliver" if (minp > 0 and short <= sliver + TOL) else
                    "desired-missed/taper" if taper else
                    ("desired-missed/headroom/" + ("fixed-load" if js["events"]["fixed_load"] else "limit-signal" if min(rating[a_:d_] + [gc_rating]) < gc_rating - 1e-9 else "rating")
                     + ("/no-slack" if (case["js"]["components"]["vehicles"][p["vid"]].get("_margin") or 1.0) <= 1.0 else "/slack")
@@ -121,8 +126,8 @@ def run(tier):
         n = 30 if tier_ == "quick" else 300
         dist = Counter()
         for strategy in svc.STRATS:
-            for i in range(n):
-                case = svc.gen(rng, strategy)
+            for i in range(n + (n // 3 if strategy in SHARED_STRATS else 0)):
+                case = svc.gen(rng, strategy, shared=(i >= n))
                 viol, st = check_case(case)
                 for k, c in st.items():
                     dist["%s/%s" % (strategy, k)] += c
